@@ -149,6 +149,19 @@ theorem C20_route (r : Reg) (env : Env) (bit : Nat) (path : Str) (hd : env.debug
     · repeat' split at h
       all_goals first | cases h | exact selectDefault_ne_debug r bit h
 
+/-- **the matcher misses nothing**: every residual the expression's language allows is among the results of
+    the backtracking matcher (sre's empty-iteration rule loses no match) - with `ms_sound`, matcher and language
+    agree -/
+theorem C02_matcher_complete (u : UTables) {r : Re} {s t : Str} (h : Lang u r s t) (st : Bool) (c : Caps)
+    (hb : BolOK r st) : ∃ c', (t, c') ∈ ms u r st s c :=
+  ms_complete u h st c hb
+
+/-- **a rule matches exactly the paths of its language**: an expression anchored with `\\Z` (every compiled
+    rule is, `rule_anchored`) matches a path iff the *whole* path belongs to the language of the rule -/
+theorem C02_match_exact (u : UTables) (a : Re) (hb : BolOK a true) (path : Str) :
+    (pyMatch u (.seq a .eos) path).isSome = true ↔ Lang u a path [] :=
+  anchored_match_iff u a hb path
+
 /-! ### registration sequences: order and latest-wins -/
 section Registrations
 open Poor.Props.C19
